@@ -161,3 +161,17 @@ claim('C11',
       'spectrum accuracy is a statement about the fit; stacked 2-D exposures need >= 101 pixels per exposure and are outside any explorable '
       'bound. An output pixel that coincides with a good input pixel counts as lying between (same-grid resampling is the identity). The '
       'scaling law is shown for weights >= 1 and factors >= 1e-3 (the code treats |ivar| < float32 eps as no weight).', 'DESIGN.md 4/C11')
+claim('C02',
+      'The real yanny parser (__init__, _parse, get_token, trailing_comment, type/isarray/isenum/array_length/char_length/dtype/convert) is '
+      'executed on a rendered logical document (2 pairs, 1 enum, 2 structs with int / char[n] / char[] / enum / string-array / float-array '
+      'columns, rows of both tables) in which the CONTENTS of a string cell, of a header value and of a trailing comment are symbolic '
+      'characters (2 per document quick, 3-4 thorough) and the layout choices are symbolic or enumerated per family: bare / quoted / '
+      'braced strings, comment lines and trailing comments, blank lines and blank/tab runs, CRLF, backslash continuation with symbolic '
+      'trailing blanks, [n] vs <n>, per-letter case of the structure name on data rows, row interleavings, text vs binary file object, '
+      'char[] sizing, structure names that are substrings of each other. For every character choice the parse (raw lists and record '
+      'arrays) equals the document: tables, column order and types, row order, every cell, pairs.',
+      're is replaced by an interpreter of the same pattern strings over symbolic strings (pathsym.symre, validated against re on ~15 000 '
+      'cases per run); numpy structured arrays by a record stand-in with numpy\'s S<n> truncation rule. Admissible contents per rendering '
+      'are stated in the evidence (e.g. bare strings contain no blank, #, quote or brace; trailing comments no quote, second # or '
+      'backslash - documented limits of trailing_comment). Float tokens are concrete. Longer contents and products of several non-default '
+      'layout choices are outside the bound.', 'DESIGN.md 4/C02')
